@@ -15,6 +15,9 @@ TEXT = {
  "C04": ("period model [S(y), next E) over 400 consecutive years for IANA, idiom, random and purposely tied rules, through constructed zones, TZ descriptions and version-3 footers", "trusts M-rule (rule days by walking the month); degenerate rules (S=E every year) are left unspecified"),
  "C05": ("search results compared with the exact set {c-o : forward(c-o) has offset o}, with the model's and the implementation's own forward lookup; convert-back and localtime->search round trips; tie-constructing local times", "trusts M-find/M-zone; rules with overlapping DST periods (known finding F3) are excluded from random generation and replayed from explicit witnesses"),
  "C06": ("gap oracle defined from the clock at X-1 and X for table, junction and rule transitions; order, uniqueness of each gap, earliest/latest", "as C05; zones whose table transitions coincide in UTC through an inserted leap second (known finding F5) are excluded from random generation and replayed from explicit witnesses"),
+ "C07": ("the facade's own monitors (panic hook, counting allocator with hard cap, thread CPU clock) over hostile inputs to every public operation: every truncation of vendored files, structured mutations, hostile counts, TZ-string edits, constructors at i32/i64 extremes, all queries on whatever parses; release and overflow-checked builds", "a clean run is not memory safety; tz-rs forbids unsafe code, so panics/overflow/allocation are the reachable failure modes"),
+ "C15": ("N-thread vs alone result digests on shared zones (2/4/8/16 threads, barriers, random yields); LD_PRELOAD interposer on getenv/setenv/putenv/tzset/localtime* and strace window (no ambient state touched); digest invariance under TZ/TZDIR/LANG/cwd; writable/TLS sections of the compiled rlib; auto-trait assertions incl. Freeze; Miri (and ThreadSanitizer in the thorough tier) on the thread workload", "the 'all future edits' quantifier is decided per tree; the artefact-section and auto-trait observations are build-time observations labelled as such"),
+ "C19": ("the crate is built with no features / alloc / std and a deterministic no-alloc workload (plus an alloc-level one) is run against each build; digests must be identical", "differential; each build's results are pinned to oracles by the other checks on the std build"),
  "C08": ("differential decoding: an independent RFC 8536 writer and decoder (Must / MustFail / Unspec) against from_tz_data on generated v1/v2/v3 files, all 894 distinct vendored tzdata files and every single-field corruption of the named kinds", "trusts M-tzif (writer and decoder are checked against each other on every generated file; disagreement = inconclusive)"),
  "C09": ("recursive-descent recogniser + denotation written from the grammar against three entry points (settings, v2 footer, v3 footer): grammar cross product, every single-character edit of sentences, thorough: all strings of length <= 6 over a 14-letter alphabet", "trusts M-posix; strings with >3-digit numbers, whitespace or non-ASCII next to a name are left unspecified"),
  "C20": ("tzset(3) resolution model over a virtual file system with a recording reader: exact sequence of paths requested and result class, exhaustively over 44 value shapes x 9 directory lists x all file assignments", "trusts M-resolve; the real file system is not involved in this check"),
